@@ -10,7 +10,8 @@ META = dict(
               "default (one spy each); context-style and legacy 3-argument signatures; classifier returns "
               "Classification objects with retry_after_s (selection jobs: distinct concrete raw values, frozen clock); "
               "sanitisation jobs: one class, every raw strategy value a solver choice of {any real, NaN, +inf, -inf}, "
-              "symbolic durations, overshoots and deadline (so `remaining` matters); sleep handler SLEEP/DEFER job; a job in "
+              "symbolic durations, overshoots and deadline (so `remaining` matters); sleep handler SLEEP/DEFER job; execute(): an on_attempt_start hook that raises a retryable "
+              "exception on attempt 1 or 2 (the strategy must be told that attempt's number); a job in "
               "which the strategy itself takes a solver-real time (delay must stay within [0, remaining told to it])",
         thorough="N=4",
     ),
@@ -19,13 +20,45 @@ META = dict(
 )
 GOALS = ["class_strategy_used", "default_strategy_used", "class_changes_between_failures", "nan_to_zero", "inf_to_zero",
          "negative_to_zero", "capped_at_remaining", "prev_sleep_is_applied_delay", "legacy_signature", "deferred_next_sleep",
-         "retry_after_passed", "strategy_took_time"]
+         "retry_after_passed", "strategy_took_time", "start_hook_raised"]
 
 
 def h_run(sym, params):
     w = World(sym, params)
     w.run(params["entry"])
     return check_delay(w, w.trace, w.result, sym)
+
+
+def check_attempt_numbers(w, trace, sym):
+    """With attempt hooks on: every strategy call is told the number of the attempt that was most recently started
+    (also when the start hook itself raised and the operation was never invoked)."""
+    started = None
+    for ev in trace:
+        if ev[0] == "attempt_start":
+            started = ev[1]
+        elif ev[0] == "strategy" and started is not None:
+            if ev[3]["attempt"] != started:
+                return ("ctx:attempt", f"strategy was told attempt={ev[3]['attempt']} while attempt {started} was the one that failed")
+        elif ev[0] == "hook_raises" and ev[1] == "attempt_start":
+            sym.cover("start_hook_raised")
+    return None
+
+
+class HookFail(Exception):
+    """raised by the on_attempt_start hook; the world's classifier reads .klass"""
+
+    def __init__(self):
+        super().__init__("start hook failed")
+        self.klass = EC.TRANSIENT
+        self.i = None
+
+
+def h_hooks(sym, params):
+    w = World(sym, params)
+    j = sym.choice("hook_fault_at", [1, 2])
+    w.fault = dict(site="attempt_start", exc=HookFail, at=j)
+    w.run(params["entry"])
+    return check_attempt_numbers(w, w.trace, sym)
 
 
 def check_delay(w, trace, result, sym):
@@ -161,6 +194,10 @@ def jobs(tier):
                         params=dict(entry=entry, N=2 if q else 3, kinds=["exc"], classes=["TRANSIENT"], max_attempts=N + 1,
                                     timed=True, strat_time=True, strat=dict(raw="real")),
                         max_wall_s=wall, weight=2))
+        if entry.endswith("execute"):  # in call() an exception from on_attempt_start propagates by design
+            out.append(dict(name=f"start_hook_raises:{entry}", harness="rv.props.c05:h_hooks",
+                            params=dict(entry=entry, N=2, kinds=["ok", "exc"], classes=["TRANSIENT"], max_attempts=3,
+                                        attempt_hooks=True, hooks=False), max_wall_s=wall, weight=1))
         out.append(dict(name=f"defer:{entry}", harness="rv.props.c05:h_run",
                         params=dict(entry=entry, N=2 if q else 3, kinds=["exc", "res"], classes=["TRANSIENT"],
                                     max_attempts=N + 1, timed=True, handler=True, strat=dict(raw="any")),
